@@ -61,6 +61,10 @@ func (e2eFamily) Gen(n int, seed int64, mode, tier string) []interface{} {
 	fl := []string{"a", "b", "+", "#", "", "a"}
 	tl := []string{"a", "b", "", "c"}
 	for i := 0; i < n; i++ {
+		if cs := corpusScript(mode, i); cs != nil {
+			out = append(out, *cs)
+			continue
+		}
 		switch mode {
 		case "route":
 			// C01 end to end: 2-4 subscriber sessions with 1-4 filters each (QoS 0 so that duplicate
@@ -671,4 +675,43 @@ func (e2eFamily) Gen(n int, seed int64, mode, tier string) []interface{} {
 		}
 	}
 	return out
+}
+
+// corpusScript: hand-minimised scripts that run first in their mode — each is the shortest history
+// found for a class of defect that random generation reaches only now and then (the session's own
+// list of filters going out of step with the subscription store; an identifier that cannot be
+// broadcast; a retained message set and cleared through the QoS 2 path).
+func corpusScript(mode string, i int) *e2eInput {
+	switch {
+	case mode == "lifecycle" && i == 0:
+		// unsubscribing a filter that was never subscribed must not disturb the remembered ones:
+		// every subscription has to be gone after the session ends
+		s := newScript(nil, 1)
+		s.connect(0, "watch", "c-watch", "", 60, nil)
+		s.sub("watch", []string{"#"}, []int{0})
+		s.connect(0, "c0", "id-c0", "", 60, nil)
+		s.sub("c0", []string{"x/a", "x/b", "x/c"}, []int{0, 1, 2})
+		s.unsub("c0", []string{"never/subscribed"})
+		s.unsub("c0", []string{"x/a"})
+		s.unsub("c0", []string{"x/a"})
+		s.add(e2eOp{Op: "check"})
+		s.add(e2eOp{Op: "send", C: "c0", P: "disc"})
+		s.pub("watch", "x/c", "after", 0, false)
+		s.checks()
+		return &s.in
+	case mode == "lifecycle" && i == 1:
+		// the same with the session lost instead of disconnected, and the last remembered filter removed first
+		s := newScript(nil, 1)
+		s.connect(0, "c0", "id-c0", "", 10, nil)
+		s.sub("c0", []string{"x/a", "x/b"}, []int{1, 0})
+		s.unsub("c0", []string{"x/b"})
+		s.unsub("c0", []string{"x/zz"})
+		s.add(e2eOp{Op: "eof", C: "c0"})
+		s.connect(0, "c1", "id-c0", "", 10, nil)
+		s.sub("c1", []string{"x/a"}, []int{0})
+		s.pub("c1", "x/a", "self", 0, false)
+		s.checks()
+		return &s.in
+	}
+	return nil
 }
